@@ -14,6 +14,7 @@ import (
 	"math/rand"
 	"os"
 	"runtime"
+	"strings"
 	"sync"
 	"unsafe"
 
@@ -80,6 +81,20 @@ type SectorCase struct {
 	E     int      `json:"e"`
 	Proof []string `json:"proof"`
 }
+// StreamCase: the streaming verifier for the claimed range [S2,E2) reads Len bytes of the sector from leaf S
+// on and gets Proof (Pf = 0: the honest proof of [S,E), 1: of [S2,E2)); Accept is the model's verdict.
+type StreamCase struct {
+	Sec    int      `json:"sec"`
+	Idx    int      `json:"idx"`
+	S      int      `json:"s"`
+	E      int      `json:"e"`
+	S2     int      `json:"s2"`
+	E2     int      `json:"e2"`
+	Len    int      `json:"len"`
+	Pf     int      `json:"pf"`
+	Proof  []string `json:"proof"`
+	Accept bool     `json:"accept"`
+}
 type RootCase struct {
 	Sec  int    `json:"sec"`
 	Idx  int    `json:"idx"`
@@ -102,6 +117,7 @@ type Expect struct {
 	Xcheck   []XCase
 	Sector   []SectorCase
 	Roots    []RootCase
+	Stream   []StreamCase
 }
 
 type Viol struct {
@@ -867,6 +883,11 @@ func (g *side) sectorFamily() {
 			sectors[c.Sec] = g.makeSector(c.Sec)
 		}
 	}
+	for _, c := range g.exp.Stream {
+		if sectors[c.Sec] == nil {
+			sectors[c.Sec] = g.makeSector(c.Sec)
+		}
+	}
 	if len(sectors) == 0 {
 		return
 	}
@@ -1175,9 +1196,142 @@ func (g *side) sectorFamily() {
 	if len(g.exp.Sector) > 0 {
 		g.res.Samples = append(g.res.Samples, map[string]any{"family": "sector", "case": g.exp.Sector[len(g.exp.Sector)-1]})
 	}
+	g.streamFamily(sectors, classes)
 	var pairs int64
 	for _, sd := range sectors {
 		pairs += sd.env.pairs
 	}
 	g.cnt("evaluator.sumpair_calls_sector_level", pairs)
+}
+
+// streamFamily: the streaming verifier (NewRangeProofVerifier + ReadFrom + Verify of rhp/v2 and the rhp/v4
+// re-export) with altered claimed ranges, truncated and over-long streams; the verdict is the model's.
+func (g *side) streamFamily(sectors map[int]*sectorData, classes []chunkClass) {
+	const L = rhp2.LeavesPerSector
+	if len(g.exp.Stream) == 0 {
+		return
+	}
+	proofs := make([][]H, len(g.exp.Stream))
+	for i, c := range g.exp.Stream { // sequential: the evaluator memoises
+		proofs[i] = sectors[c.Sec].env.evalList(c.Proof)
+	}
+	pad := make([]byte, 64*16)
+	rand.New(rand.NewSource(g.exp.Seed*17 + 3)).Read(pad)
+	var wg sync.WaitGroup
+	sem := make(chan struct{}, 8)
+	var evals, replayed, nontriv int64
+	for ci := range g.exp.Stream {
+		wg.Add(1)
+		sem <- struct{}{}
+		go func(ci int) {
+			defer wg.Done()
+			defer func() { <-sem }()
+			c, sd, proof := g.exp.Stream[ci], sectors[g.exp.Stream[ci].Sec], proofs[ci]
+			cs := map[string]any{"family": "stream", "case": c, "sector": c.Sec, "kind": sd.kind, "avx2": g.res.AVX2}
+			g.guard("stream", cs, func() {
+				full, claimed := 64*(c.E-c.S), 64*(c.E2-c.S2)
+				off := c.S * 64
+				var stream []byte
+				if off+c.Len <= len(sd.data) {
+					stream = sd.data[off : off+c.Len]
+				} else {
+					stream = append(append([]byte(nil), sd.data[off:]...), pad...)
+					if len(stream) < c.Len {
+						g.infra("stream case %d: %d bytes wanted behind the end of the sector", c.Idx, c.Len)
+						return
+					}
+					stream = stream[:c.Len]
+				}
+				var usable []chunkClass
+				for _, cc := range classes {
+					if !cc.small || c.Len <= 64*64 {
+						usable = append(usable, cc)
+					}
+				}
+				cc := usable[ci%len(usable)]
+				var rpv *rhp2.RangeProofVerifier
+				api := "rhp2"
+				if ci%2 == 1 {
+					rpv, api = rhp4.NewRangeProofVerifier(uint64(c.S2), uint64(c.E2)), "rhp4"
+					g.cnt("stream.v4", 1)
+				} else {
+					rpv = rhp2.NewRangeProofVerifier(uint64(c.S2), uint64(c.E2))
+				}
+				nread, err := rpv.ReadFrom(cc.reader(stream))
+				got := err == nil && rpv.Verify(proof, sd.root)
+				// what the case is
+				var class string
+				switch {
+				case c.Pf == 0 && c.S2 == c.S && c.E2 != c.E, c.Pf == 1 && c.S2 == c.S && c.E2 > c.E && c.Len == full:
+					class = "altered-end"
+				case c.S2 != c.S && c.E2 == c.E:
+					class = "altered-start"
+				case c.S2 != c.S:
+					class = "altered-range"
+				case c.Len < claimed:
+					class = "truncated-stream"
+				case c.Len > claimed:
+					class = "overlong-stream"
+				default:
+					class = "honest"
+				}
+				desc := fmt.Sprintf("%s.RangeProofVerifier for [%d,%d) given %d bytes of the sector from leaf %d on (honest data of [%d,%d): %d bytes; reader class %s) and the honest proof of [%d,%d): ReadFrom = %d, %v",
+					api, c.S2, c.E2, c.Len, c.S, c.S, c.E, full, cc.name, map[int]int{0: c.S, 1: c.S2}[c.Pf], map[int]int{0: c.E, 1: c.E2}[c.Pf], nread, err)
+				ok := true
+				if err == nil {
+					want := c.Len
+					if claimed < want {
+						want = claimed
+					}
+					if nread != int64(want) {
+						ok = false
+						g.viol("rangeverifier-read-wrong", desc+fmt.Sprintf("; %d bytes were to be read", want), cs)
+					}
+				}
+				switch {
+				case got && !c.Accept:
+					ok = false
+					g.viol("rangeverifier-accepts-"+class, desc+"; Verify ACCEPTS, the range-proof model rejects ("+class+")", cs)
+				case !got && c.Accept:
+					ok = false
+					key := "rangeverifier-honest-proof-rejected"
+					if class != "honest" {
+						key = "rangeverifier-rejects-" + class
+					}
+					g.viol(key, desc+"; rejected, the range-proof model accepts (the data read and the proof are the honest ones of the claimed range)", cs)
+				case got:
+					g.cnt("stream.accept.agreed", 1)
+					if class == "overlong-stream" {
+						g.cnt("stream.overlong.accepted", 1)
+					}
+				default:
+					g.cnt("stream.reject.agreed", 1)
+					g.cnt("stream."+strings.ReplaceAll(strings.TrimSuffix(class, "-stream"), "-", "_")+".rejected", 1)
+				}
+				if c.E2 >= L-8 || c.E >= L-8 {
+					g.cnt("stream.last_leaves", 1)
+				}
+				if c.S <= 8 || c.S2 <= 8 {
+					g.cnt("stream.first_leaves", 1)
+				}
+				if c.S >= L/2-8 && c.S <= L/2+8 || c.E >= L/2-8 && c.E <= L/2+8 {
+					g.cnt("stream.middle_leaves", 1)
+				}
+				g.mu.Lock()
+				evals++
+				if ok {
+					replayed++
+				}
+				if class != "honest" && len(proof) > 0 {
+					nontriv++
+				}
+				g.mu.Unlock()
+			})
+		}(ci)
+	}
+	wg.Wait()
+	g.res.Evals += evals
+	g.res.Replayed += replayed
+	g.res.Nontrivial += nontriv
+	g.res.Samples = append(g.res.Samples, map[string]any{"family": "stream", "case": g.exp.Stream[len(g.exp.Stream)-1]})
 }
